@@ -22,6 +22,9 @@ pub enum Item {
     FnWithSig(&'static str, &'static str, &'static str, &'static str),
     /// an enum with unit and tuple variants
     Enum(&'static str),
+    /// an external pure function the unit calls (another crate): every function of the unit translated after this item
+    /// takes it as an explicit parameter, so that theorems quantify over it: (last path segment, Rust fn-pointer type)
+    Extern(&'static str, &'static str),
     /// a hand-written Lean definition emitted verbatim (a mirror of library / iterator plumbing): (what it mirrors, text)
     Mirror(&'static str, &'static str),
     /// a struct, with the fields that are kept (others are dropped: references back to owners, caches, ...)
@@ -33,6 +36,7 @@ impl Item {
         match self {
             Item::Fn(n) | Item::Const(n) | Item::Struct(n, _) => n.to_string(),
             Item::Mirror(n, _) => format!("mirror:{}", n),
+            Item::Extern(n, _) => format!("extern:{}", n),
             Item::FnWithSig(f, n, ..) => format!("{}[as {}]", f, n),
             Item::Enum(n) => n.to_string(),
             Item::ClosureBody(o, f, p, n, ..) => format!("{}::{}[closure |{}|]=>{}", o, f, p, n),
@@ -145,6 +149,20 @@ pub fn units() -> Vec<Unit> {
                 "line: &str, col: u32, span: u32",
                 "Option<&str>",
             )],
+            imports: vec![],
+        },
+        Unit {
+            module: "RsJsIdent",
+            file: "js_identifiers.rs",
+            fns: vec![
+                Item::Extern("is_id_start_unicode", "fn(char) -> bool"),
+                Item::Extern("is_id_continue_unicode", "fn(char) -> bool"),
+                Item::Fn("is_valid_start"),
+                Item::Fn("is_valid_continue"),
+                Item::Fn("strip_identifier"),
+                Item::Fn("is_valid_javascript_identifier"),
+                Item::Fn("get_javascript_token"),
+            ],
             imports: vec![],
         },
         Unit {
